@@ -193,6 +193,12 @@ pub fn dump_container(path: &Path, opts: &DumpOpts) -> J {
             contents.insert(format!("{p}/{i}"), dump_content(&c, p, i));
         }
         contents.insert(format!("{p}/{count}"), dump_content(&c, p, count));
+        // the same container answers a second request for a content the way it answered the first
+        // one, whatever it remembers of the first (first and last content of the pack)
+        if count > 0 {
+            contents.insert(format!("{p}/0#again"), dump_content(&c, p, 0));
+            contents.insert(format!("{p}/{}#again", count - 1), dump_content(&c, p, count - 1));
+        }
     }
     out.insert("packs".into(), J::Object(packs));
     out.insert("contents".into(), J::Object(contents));
@@ -683,6 +689,12 @@ pub fn model_dump(l: &Logical) -> J {
             contents.insert(format!("{p}/{i}"), json!({"size": b.len(), "blake3": blake3::hash(&b).to_hex().to_string(), "read": b.len()}));
         }
         contents.insert(format!("{p}/{}", items.len()), json!("no such content"));
+        if !items.is_empty() {
+            for i in [0, items.len() - 1] {
+                let again = contents[&format!("{p}/{i}")].clone();
+                contents.insert(format!("{p}/{i}#again"), again);
+            }
+        }
     }
     json!({"open": "ok", "indexes": indexes, "contents": contents, "check": true})
 }
